@@ -112,12 +112,24 @@ def draw_data_len(ch, read_size=None, allow_max=True, cap=None):
     return 1 + ch.draw(2000, "dlen")
 
 
+MAGICS = (b"\x1f\x8b\x08\x00", b"BZh9", b"\xfd7zX", b"\x28\xb5\x2f\xfd", b"PK\x03\x04", b"\x04\x22\x4d\x18", b"\x78\x9c",
+          b"\xef\xbb\xbf", b"\xff\xfe", b"\xfe\xff", b"\x1f\x8b", b"#!/b", b"\r\n\r\n", b"\x1a\xcf\xfc\x1d", b"\x1f\x9d")
+
+
 def draw_packet(ch, read_size=None, allow_max=True, cap=None):
     # the two all-same-bit headers are legal packets: 7 zero bytes (version 0, APID 0, CONTINUATION, count 0, one data
     # byte) and, when maximum-size packets are allowed, FF FF FF FF FF FF + 65536 data bytes
-    special = ch.weighted([(58, None), (1, "zeros"), (1, "ones")], "special_pkt")
+    special = ch.weighted([(58, None), (1, "zeros"), (1, "ones"), (2, "magic")], "special_pkt")
     if special == "zeros":
         return bytes(7)
+    if special == "magic":
+        # header values that spell the magic number of a file format (gzip, bzip2, xz, zstd, zip, lz4, zlib, byte-order
+        # marks, a text line): legal packets that content sniffing would mistake for something else
+        m = ch.pick(MAGICS, "magic")
+        fill = ch.draw(1 << 16, "magic_fill")
+        hdr4 = (m + fill.to_bytes(2, "big") + b"\x00\x00")[:4] if len(m) < 4 else m[:4]
+        n = draw_data_len(ch, read_size, allow_max, cap)
+        return hdr4 + (n - 1).to_bytes(2, "big") + payload(ch.draw(1 << 32, "payload"), n)
     if special == "ones" and allow_max and cap is None:
         return b"\xff" * 6 + payload(ch.draw(1 << 16, "ones_payload"), 65536)
     hdr = draw_header(ch)
